@@ -1,4 +1,488 @@
-use crate::report::Run;
-use serde_json::Value;
-pub fn run(_run: &mut Run) -> Result<(), String> { Err("not implemented".into()) }
-pub fn replay(_prop: &str, _body: &Value) -> Result<(), String> { Err("MACHINERY: not implemented".into()) }
+//! C08 FEN parser (total, strict, names the bad field) and C20 SAN / UCI helpers.
+
+use crate::bridge::*;
+use crate::report::{Run, Sink, Tally};
+use cozy_chess::*;
+use rayon::prelude::*;
+use refmodel::text::{decode_fen_all, to_fen, FenFault, Notation};
+use refmodel::Pos;
+use serde_json::{json, Value};
+use std::time::Instant;
+
+mod c20;
+
+#[derive(Clone, Copy, PartialEq, Eq, Debug)]
+pub enum Entry {
+    Standard,
+    Shredder,
+    Parse,
+}
+impl Entry {
+    pub const ALL: [Entry; 3] = [Entry::Standard, Entry::Shredder, Entry::Parse];
+    fn name(self) -> &'static str {
+        match self {
+            Entry::Standard => "from_fen(_, false)",
+            Entry::Shredder => "from_fen(_, true)",
+            Entry::Parse => "str::parse",
+        }
+    }
+    fn from_name(s: &str) -> Option<Entry> {
+        Entry::ALL.into_iter().find(|e| e.name() == s)
+    }
+    fn notation(self) -> Notation {
+        match self {
+            Entry::Standard => Notation::Standard,
+            Entry::Shredder => Notation::Shredder,
+            Entry::Parse => Notation::Either,
+        }
+    }
+    fn call(self, text: &str) -> Result<Result<Board, FenParseError>, String> {
+        guarded(|| match self {
+            Entry::Standard => Board::from_fen(text, false),
+            Entry::Shredder => Board::from_fen(text, true),
+            Entry::Parse => text.parse::<Board>(),
+        })
+    }
+}
+
+fn fault_of(e: &FenParseError) -> FenFault {
+    match e {
+        FenParseError::InvalidBoard => FenFault::Board,
+        FenParseError::InvalidSideToMove => FenFault::Side,
+        FenParseError::InvalidCastlingRights => FenFault::Castling,
+        FenParseError::InvalidEnPassant => FenFault::EnPassant,
+        FenParseError::InvalidHalfMoveClock => FenFault::HalfMove,
+        FenParseError::InvalidFullmoveNumber => FenFault::FullMove,
+        FenParseError::MissingField => FenFault::TooFewFields,
+        FenParseError::TooManyFields => FenFault::TooManyFields,
+    }
+}
+
+/// One string through one entry point. `expect`: Some(fault) when the generator knows that exactly
+/// this is wrong with an otherwise valid record (attribution is asserted only then).
+pub fn check_text(text: &str, entry: Entry, expect: Option<FenFault>, sink: &Sink, t: &mut Tally) {
+    t.transitions += 1;
+    t.validated += 1;
+    let case = || json!({"kind": "fen", "text": text, "entry": entry.name(), "expect": expect.map(|f| format!("{:?}", f))});
+    match entry.call(text) {
+        Err(e) => sink.violation("C08.total", &format!("{} panicked", entry.name()), case(), format!("{}({:?}) panicked: {}", entry.name(), text, e)),
+        Ok(Ok(b)) => {
+            t.hit("accepted");
+            let got = alpha(&b);
+            match decode_fen_all(text, entry.notation()) {
+                Err(f) => {
+                    let nfields = text.split(' ').count();
+                    let nranks = text.split(' ').next().unwrap_or("").split('/').count();
+                    let sig = if nfields != 6 {
+                        format!("accepted with {} fields", nfields)
+                    } else if nranks != 8 {
+                        format!("accepted with {} ranks", nranks)
+                    } else {
+                        format!("accepted although the {:?} field denotes nothing", f)
+                    };
+                    sink.violation("C08.strict", &sig, case(), format!("{}({:?}) returns the board {} but the text is not a well-formed record ({:?})", entry.name(), text, shredder(&b), f));
+                }
+                Ok(readings) => {
+                    if !readings.contains(&got) {
+                        sink.violation("C08.faithful", "board is not the position the text denotes", case(), format!("{}({:?}) returns {} but the text denotes {}", entry.name(), text, shredder(&b), to_fen(&readings[0], true)));
+                    }
+                }
+            }
+            if let Some(f) = expect {
+                sink.violation("C08.attribution", &format!("{:?} fault accepted", f), case(), format!("{}({:?}) accepts a record whose {:?} field is wrong", entry.name(), text, f));
+            }
+        }
+        Ok(Err(e)) => {
+            t.hit("rejected");
+            if let Some(f) = expect {
+                t.hit("attribution-checked");
+                if fault_of(&e) != f {
+                    sink.violation("C08.attribution", &format!("{:?} reported as {:?}", f, fault_of(&e)), case(), format!("{}({:?}): only {:?} is wrong, but the error is {:?} ({})", entry.name(), text, f, fault_of(&e), e));
+                }
+            }
+        }
+    }
+}
+
+const SIGMA: &[char] = &[
+    'p', 'n', 'b', 'r', 'q', 'k', 'P', 'N', 'B', 'R', 'Q', 'K', '0', '1', '2', '3', '4', '5', '6', '7', '8', '9', '/', ' ', '-', 'w', 'a', 'c', 'd', 'e', 'f', 'g', 'h', 'A', 'C', 'D', 'E', 'F', 'G', 'H', '+', 'x', 'é',
+];
+
+fn field_fault(i: usize) -> FenFault {
+    [FenFault::Board, FenFault::Side, FenFault::Castling, FenFault::EnPassant, FenFault::HalfMove, FenFault::FullMove][i]
+}
+
+/// expected attribution for a record in which only field `i` of an accepted record was changed
+fn expectation(text: &str, i: usize, entry: Entry) -> Option<FenFault> {
+    match decode_fen_all(text, entry.notation()) {
+        // (i) the field is outside its grammar
+        Err(f) if f == field_fault(i) => Some(f),
+        Err(_) => None,
+        // (ii) a well-formed castling / en-passant / clock field that the position or the range
+        // does not support (under every reading)
+        Ok(readings) if i >= 2 => {
+            let aspects: Vec<Option<FenFault>> = readings.iter().map(|p| p.unsound_aspect()).collect();
+            if aspects.iter().all(|a| *a == Some(field_fault(i))) {
+                Some(field_fault(i))
+            } else {
+                None
+            }
+        }
+        Ok(_) => None,
+    }
+}
+
+/// every single-character edit and every field-level edit of one canonical record
+fn edits_of(record: &str, f: &mut dyn FnMut(String, Option<usize>, Option<FenFault>)) {
+    let chars: Vec<char> = record.chars().collect();
+    // which field does character position p belong to (None = a separating space)
+    let mut field_at = Vec::with_capacity(chars.len());
+    let mut fi = 0usize;
+    for &c in &chars {
+        if c == ' ' {
+            field_at.push(None);
+            fi += 1;
+        } else {
+            field_at.push(Some(fi));
+        }
+    }
+    let build = |v: &[char]| -> String { v.iter().collect() };
+    for p in 0..chars.len() {
+        // deletion
+        let mut v = chars.clone();
+        v.remove(p);
+        f(build(&v), field_at[p], None);
+        // substitution
+        for &c in SIGMA {
+            if c != chars[p] {
+                let mut v = chars.clone();
+                v[p] = c;
+                let fld = if c == ' ' { None } else { field_at[p] };
+                f(build(&v), fld, None);
+            }
+        }
+    }
+    for p in 0..=chars.len() {
+        for &c in SIGMA {
+            let mut v = chars.clone();
+            v.insert(p, c);
+            // an inserted non-space character belongs to the field it touches (only asserted
+            // when it is strictly inside or at the edge of exactly one field)
+            let left = if p > 0 { field_at[p - 1] } else { None };
+            let right = if p < chars.len() { field_at[p] } else { None };
+            let fld = if c == ' ' {
+                None
+            } else {
+                match (left, right) {
+                    (Some(a), Some(b)) if a == b => Some(a),
+                    (Some(a), None) => Some(a),
+                    (None, Some(b)) => Some(b),
+                    _ => None,
+                }
+            };
+            f(build(&v), fld, None);
+        }
+    }
+    // field-level edits
+    let fields: Vec<&str> = record.split(' ').collect();
+    for i in 0..fields.len() {
+        let mut v = fields.clone();
+        v.remove(i);
+        f(v.join(" "), None, None); // dropped
+        let mut v = fields.clone();
+        v.insert(i, fields[i]);
+        f(v.join(" "), None, None); // duplicated
+        let mut v = fields.clone();
+        v[i] = "";
+        f(v.join(" "), Some(i), None); // emptied
+        if i + 1 < fields.len() {
+            let mut v = fields.clone();
+            v.swap(i, i + 1);
+            f(v.join(" "), None, None);
+        }
+    }
+    // truncated after k fields, 1 <= k < 6: too few fields
+    for k in 1..fields.len() {
+        f(fields[..k].join(" "), None, Some(FenFault::TooFewFields));
+    }
+    // extra trailing field(s): too many fields
+    for extra in ["0", "x", "w", "-", "1 1", "KQkq"] {
+        f(format!("{} {}", record, extra), None, Some(FenFault::TooManyFields));
+    }
+    f(format!("{} ", record), None, None);
+    f(format!(" {}", record), None, None);
+}
+
+fn edit_universe(corpus: &[Pos], pairs_for: usize, sink: &Sink) -> Tally {
+    corpus
+        .par_iter()
+        .enumerate()
+        .fold(Tally::default, |mut t, (ci, p)| {
+            for shred in [true, false] {
+                if !shred && !p.rights.iter().flatten().all(|r| matches!(r, None | Some(0) | Some(7))) {
+                    continue;
+                }
+                let record = to_fen(p, shred);
+                // the canonical record itself: accepted, and by which entry points
+                let mut accepted_by = Vec::new();
+                for e in Entry::ALL {
+                    let native = matches!((e, shred), (Entry::Parse, _) | (Entry::Shredder, true) | (Entry::Standard, false));
+                    let no_rights = p.rights.iter().flatten().all(|r| r.is_none());
+                    if native || no_rights {
+                        t.states += 1;
+                        match e.call(&record) {
+                            Ok(Ok(b)) => {
+                                if alpha(&b) != *p {
+                                    sink.violation("C08.faithful", "canonical record decoded to another position", json!({"kind": "fen", "text": record, "entry": e.name(), "expect": null}), format!("{}({:?}) gives {}", e.name(), record, shredder(&b)));
+                                }
+                                accepted_by.push(e);
+                            }
+                            Ok(Err(err)) => sink.violation("C08.canonical", &format!("canonical record rejected:{:?}", fault_of(&err)), json!({"kind": "canonical", "text": record, "entry": e.name()}), format!("{} rejects the canonical record {:?} of an accepted board ({})", e.name(), record, err)),
+                            Err(pn) => sink.violation("C08.total", "panicked on canonical record", json!({"kind": "fen", "text": record, "entry": e.name(), "expect": null}), pn),
+                        }
+                    }
+                }
+                let mut firsts: Vec<String> = Vec::new();
+                edits_of(&record, &mut |text, field, forced| {
+                    t.states += 1;
+                    t.evals += 1;
+                    if sink.want_sample(t.evals) {
+                        sink.sample(|| json!({"kind": "fen-edit", "of": record, "text": text}));
+                    }
+                    for e in Entry::ALL {
+                        // attribution only where the unedited record is accepted by this entry point
+                        let expect = if accepted_by.contains(&e) {
+                            match (forced, field) {
+                                (Some(f), _) => Some(f),
+                                (None, Some(i)) => expectation(&text, i, e),
+                                _ => None,
+                            }
+                        } else {
+                            None
+                        };
+                        if expect.is_some() {
+                            t.nontrivial += 1;
+                        }
+                        check_text(&text, e, expect, sink, &mut t);
+                    }
+                    if ci < pairs_for && shred {
+                        firsts.push(text);
+                    }
+                });
+                // all pairs of edits for the first few records (no attribution: two faults)
+                for first in firsts {
+                    edits_of(&first, &mut |text, _, _| {
+                        t.states += 1;
+                        t.evals += 1;
+                        for e in Entry::ALL {
+                            check_text(&text, e, None, sink, &mut t);
+                        }
+                    });
+                }
+            }
+            t
+        })
+        .reduce(Tally::default, Tally::merge)
+}
+
+#[derive(Clone, Copy, PartialEq)]
+enum Lab {
+    V,
+    Bad,
+}
+type Menu = Vec<(&'static str, Lab)>;
+
+fn menus() -> [Menu; 6] {
+    use Lab::*;
+    [
+        vec![
+            ("rnbqkbnr/pppppppp/8/8/8/8/PPPPPPPP/RNBQKBNR", V),
+            ("r3k2r/8/8/8/4P3/8/8/R3K2R", V),
+            ("4k3/8/8/8/8/8/8/4K3", V),
+            ("r3k2r/8/8/8/4P3/8/44/R3K2R", V),
+            ("r3k2r/8/8/8/4P3/8/8/R3K2R0", V),
+            ("4k3/8/8/8/8/8/4K3", Bad),
+            ("4k3/8/8/8/8/8/8/8/4K3", Bad),
+            ("4k3/8/8/8/8/8/8/4K2", Bad),
+            ("4k3/8/8/8/8/8/8/4K4", Bad),
+            ("4k3/8/8/8/8/8/8/4K9", Bad),
+            ("4k3/8/8/8/8/8/8/4X3", Bad),
+            ("4k3/8/8/8//8/8/4K3", Bad),
+            ("", Bad),
+            ("4k3/8/8/8/8/8/8/4K3/", Bad),
+            ("/4k3/8/8/8/8/8/8/4K3", Bad),
+            ("4k3/8/8/8/8/8/8/4Ké2", Bad),
+            ("4k3/8/8/8/8/8/8/3Kk3", Bad),
+            ("8/8/8/8/8/8/8/4K3", Bad),
+            ("4k3/8/8/8/8/8/8/P3K3", Bad),
+            ("4k3/8/8/8/8/8/8/4K2R", V),
+        ],
+        vec![("w", V), ("b", V), ("W", Bad), ("", Bad), ("x", Bad), ("wb", Bad), ("-", Bad), ("é", Bad)],
+        vec![("-", V), ("KQkq", V), ("HAha", V), ("K", V), ("q", V), ("", Bad), ("KK", Bad), ("Kx", Bad), ("--", Bad), ("kqKQ", V), ("AHah", V), ("Hh", V), ("E", Bad), ("KQkq-", Bad), ("é", Bad), ("Aa1", Bad)],
+        vec![("-", V), ("e3", V), ("e6", Bad), ("a3", Bad), ("h6", Bad), ("e4", Bad), ("e9", Bad), ("", Bad), ("e", Bad), ("ee3", Bad), ("E3", Bad), ("i3", Bad), ("e3 ", Bad), ("é3", Bad)],
+        vec![("0", V), ("1", V), ("99", V), ("100", V), ("101", Bad), ("255", Bad), ("256", Bad), ("65536", Bad), ("-1", Bad), ("+5", V), ("007", V), ("", Bad), ("x", Bad), ("1e1", Bad), ("99999999999999999999", Bad)],
+        vec![("1", V), ("2", V), ("65535", V), ("0", Bad), ("65536", Bad), ("-1", Bad), ("+5", V), ("007", V), ("", Bad), ("x", Bad), ("1.0", Bad), ("99999999999999999999", Bad)],
+    ]
+}
+
+/// full Cartesian product of the per-field menus (totality, strictness, faithful decoding), and
+/// single-fault records on valid bases (attribution)
+fn menu_universe(sink: &Sink) -> Tally {
+    let m = menus();
+    let sizes: Vec<usize> = m.iter().map(|x| x.len()).collect();
+    let total: usize = sizes.iter().product();
+    let prod: Tally = (0..sizes[0])
+        .into_par_iter()
+        .fold(Tally::default, |mut t, i0| {
+            let per = total / sizes[0];
+            for rest in 0..per {
+                let mut idx = [i0, 0, 0, 0, 0, 0];
+                let mut r = rest;
+                for k in (1..6).rev() {
+                    idx[k] = r % sizes[k];
+                    r /= sizes[k];
+                }
+                let text = (0..6).map(|k| m[k][idx[k]].0).collect::<Vec<_>>().join(" ");
+                t.states += 1;
+                t.evals += 1;
+                if idx.iter().enumerate().filter(|(k, &i)| m[*k][i].1 == Lab::Bad).count() >= 1 {
+                    t.nontrivial += 1;
+                }
+                for e in Entry::ALL {
+                    check_text(&text, e, None, sink, &mut t);
+                }
+            }
+            t
+        })
+        .reduce(Tally::default, Tally::merge);
+    // single-fault records: bases accepted by the entry point, one field replaced by each entry
+    // of that field's menu; the expectation is derived by the reference decoder
+    let bases: [[&str; 6]; 4] = [
+        ["rnbqkbnr/pppppppp/8/8/8/8/PPPPPPPP/RNBQKBNR", "w", "KQkq", "-", "0", "1"],
+        ["r3k2r/8/8/8/4P3/8/8/R3K2R", "b", "HAha", "e3", "12", "34"],
+        ["r3k2r/8/8/8/4P3/8/8/R3K2R", "b", "KQkq", "e3", "12", "34"],
+        ["4k3/8/8/8/8/8/8/4K3", "w", "-", "-", "100", "65535"],
+    ];
+    let mut t = prod;
+    for base in bases {
+        let record = base.join(" ");
+        for e in Entry::ALL {
+            if !matches!(e.call(&record), Ok(Ok(_))) {
+                continue;
+            }
+            for i in 0..6 {
+                for (alt, _) in &m[i] {
+                    if *alt == base[i] {
+                        continue;
+                    }
+                    let mut f = base;
+                    f[i] = alt;
+                    let text = f.join(" ");
+                    // a replacement containing a space changes the field count: not a single-field fault
+                    let expect = if alt.contains(' ') { None } else { expectation(&text, i, e) };
+                    t.states += 1;
+                    t.evals += 1;
+                    if expect.is_some() {
+                        t.nontrivial += 1;
+                    }
+                    check_text(&text, e, expect, sink, &mut t);
+                }
+            }
+        }
+    }
+    t
+}
+
+fn short_universe(sink: &Sink) -> Tally {
+    let alpha40 = crate::props::pure::ALPHA40;
+    alpha40
+        .par_iter()
+        .fold(Tally::default, |mut t, &first| {
+            let mut cur = String::new();
+            cur.push(first);
+            fn rec(alphabet: &[char], left: usize, cur: &mut String, f: &mut dyn FnMut(&str)) {
+                f(cur);
+                if left == 0 {
+                    return;
+                }
+                for &c in alphabet {
+                    cur.push(c);
+                    rec(alphabet, left - 1, cur, f);
+                    cur.pop();
+                }
+            }
+            rec(alpha40, 2, &mut cur, &mut |s| {
+                t.states += 1;
+                t.evals += 1;
+                for e in Entry::ALL {
+                    check_text(s, e, None, sink, &mut t);
+                }
+            });
+            t
+        })
+        .reduce(Tally::default, Tally::merge)
+}
+
+fn run_c08(run: &mut Run) {
+    let q = run.quick();
+    run.rule = "strings: every single-character deletion / substitution / insertion (43-symbol FEN alphabet incl. a multi-byte character) at every position of the canonical Shredder and plain records of a corpus of accepted boards, every field dropped / duplicated / emptied / swapped, truncation after each field, extra trailing fields (thorough: all PAIRS of edits for the first records); the full Cartesian product of per-field menus of well-formed and malformed alternatives; every string of length <=3 over a 40-symbol alphabet; each through from_fen(false), from_fen(true) and str::parse. Oracle: no panic; Ok(b) => reference decoder accepts the text and alpha(b) is the denoted position; expected error asserted only for single-field faults of records the entry point otherwise accepts, for truncations and for extra fields. non-trivial = cases with an asserted error attribution".into();
+    run.assume("'all Unicode strings' is restricted to the enumerated string families");
+    run.assume("digits 0-9 in a rank denote that many empty files; numeric fields are decimal with optional leading '+' and leading zeros (may be accepted or rejected; if accepted must denote that value)");
+    let mut corpus = crate::universes::corpus_positions(true, &run.sink);
+    if q {
+        corpus.truncate(60);
+    } else {
+        let more = crate::universes::corpus_positions(false, &run.sink);
+        corpus = more.into_iter().step_by(3).collect();
+    }
+    let t0 = Instant::now();
+    let t = edit_universe(&corpus, if q { 0 } else { 4 }, &run.sink);
+    run.add("T-FENEDIT", json!({"corpus_records": corpus.len(), "alphabet": SIGMA.len(), "edit_distance": if q { "1" } else { "1 (all records), 2 (first 4 records)" }, "entry_points": 3}), true, t0, t);
+    let t0 = Instant::now();
+    let t = menu_universe(&run.sink);
+    run.add("T-FENMENU", json!({"menu_sizes": menus().iter().map(|m| m.len()).collect::<Vec<_>>(), "product": "complete", "single_fault_bases": 4}), true, t0, t);
+    let t0 = Instant::now();
+    let t = short_universe(&run.sink);
+    run.add("T-SHORT", json!({"alphabet": 40, "max_len": 3}), true, t0, t);
+}
+
+pub fn run(run: &mut Run) -> Result<(), String> {
+    match run.prop.as_str() {
+        "C08" => run_c08(run),
+        "C20" => c20::run(run),
+        _ => unreachable!(),
+    }
+    Ok(())
+}
+
+pub fn replay(prop: &str, body: &Value) -> Result<(), String> {
+    let local = Sink::new(prop, 0);
+    let mut t = Tally::default();
+    let case = &body["case"];
+    let monitor = body["monitor"].as_str().unwrap_or("");
+    match prop {
+        "C08" => {
+            let text = case["text"].as_str().ok_or("MACHINERY: no text")?;
+            let entry = Entry::from_name(case["entry"].as_str().unwrap_or("")).ok_or("MACHINERY: entry")?;
+            if case["kind"] == "canonical" {
+                if let Ok(Err(e)) = entry.call(text) {
+                    return Err(format!("[C08.canonical] {} rejects the canonical record {:?} ({})", entry.name(), text, e));
+                }
+                return Ok(());
+            }
+            let expect = match case["expect"].as_str() {
+                None => None,
+                Some(s) => [FenFault::TooFewFields, FenFault::TooManyFields, FenFault::Board, FenFault::Side, FenFault::Castling, FenFault::EnPassant, FenFault::HalfMove, FenFault::FullMove].into_iter().find(|f| format!("{:?}", f) == s),
+            };
+            check_text(text, entry, expect, &local, &mut t);
+        }
+        "C20" => c20::replay(case, &local, &mut t)?,
+        _ => unreachable!(),
+    }
+    for v in local.all_violations() {
+        if v.monitor == monitor {
+            return Err(format!("[{}] {}", v.monitor, v.detail));
+        }
+    }
+    Ok(())
+}
